@@ -87,6 +87,9 @@ namespace pika {
         //                  types ([thread.mutex.requirements.mutex]).
         void release(std::ptrdiff_t update = 1)
         {
+#if defined(PIKA_VERIF)
+            PIKA_VERIF_POINT(801, this);
+#endif
             std::unique_lock<mutex_type> l(mtx_);
             sem_.signal(std::move(l), update);
         }
@@ -105,6 +108,9 @@ namespace pika {
         // Returns:         true if counter was decremented, otherwise false.
         bool try_acquire() noexcept
         {
+#if defined(PIKA_VERIF)
+            PIKA_VERIF_POINT(802, this);
+#endif
             std::unique_lock<mutex_type> l(mtx_);
             return sem_.try_acquire(l);
         }
@@ -120,6 +126,9 @@ namespace pika {
         //                  types ([thread.mutex.requirements.mutex]).
         void acquire()
         {
+#if defined(PIKA_VERIF)
+            PIKA_VERIF_POINT(803, this);
+#endif
             std::unique_lock<mutex_type> l(mtx_);
             sem_.wait(l, 1);
         }
@@ -142,6 +151,9 @@ namespace pika {
         //                  ([thread.mutex.requirements.mutex]).
         bool try_acquire_until(pika::chrono::steady_time_point const& abs_time)
         {
+#if defined(PIKA_VERIF)
+            PIKA_VERIF_POINT(804, this);
+#endif
             std::unique_lock<mutex_type> l(mtx_);
             return sem_.wait_until(l, abs_time, 1);
         }
